@@ -185,6 +185,11 @@ func c12Run(t *testing.T, r *vfRand, nPeers, nActions int) (steps []c12Step, sel
 			cancel()
 		default: // refresh after the grace period
 			cur.action = "refresh"
+			// often one member accepts the liveness probe and never answers: the probe's own timeout must evict it
+			if members := d.routingTable.ListPeers(); len(members) > 0 && r.Chance(50) {
+				hangs[members[r.Intn(len(members))]] = true
+				cur.action = "refresh-with-hanging-member"
+			}
 			time.Sleep(8 * time.Hour)
 			ch := d.RefreshRoutingTable()
 			synctest.Wait()
